@@ -117,10 +117,28 @@ func runC04(e *Env) error {
 			}
 		}
 	}
+	// (b'') a backslash before every spelling of an opener: the text behind it (dash included) is literal — compared with
+	// the model only (that the backslash itself is dropped is the recorded finding, which the model reproduces)
+	for i := 0; i < e.N(150, 5000) && !r.Full(); i++ {
+		var sb strings.Builder
+		for k := 1 + rg.Intn(4); k > 0; k-- {
+			sb.WriteString(pick(rg, []string{"a ", "", " x", "é"}))
+			sb.WriteString(pick(rg, []string{"\\{{-", "\\{%-", "\\{#-", "\\{{", "\\{%", "\\{#", "\\{{- v -}}", "\\{%- if v -%}", "{{ v }}", "{{- v -}}", "{# c #}", "\\\\{{ v }}", "\\ {{ v }}"}))
+			sb.WriteString(pick(rg, []string{" b", "", "-", " }}", "-}}"}))
+		}
+		src := sb.String()
+		c := &Case{Templates: map[string]string{"main": src}, Main: "main", Ctx: map[string]any{"v": "V"}, FailAt: -1}
+		if _, _, _, err := compareCase(e, c, "render-model-c04", "correspondence render on escaped openers"); err != nil {
+			return err
+		}
+		r.Seen("esc:"+src, true)
+		r.Hit("escaped-openers")
+	}
 	// (d) verbatim bodies
 	n = e.N(300, 10000)
 	for i := 0; i < n && !r.Full(); i++ {
-		body := genLit(rg, 8) + pick(rg, []string{"{{ secret }}", "{% if secret %}x{% endif %}", "{{ secret|upper }}", "{# c #}", "{{ spyfn() }}", "{% for i in secret %}{{ i }}{% endfor %}"}) + genLit(rg, 8)
+		body := genLit(rg, 8) + pick(rg, []string{"{{ secret }}", "{% if secret %}x{% endif %}", "{{ secret|upper }}", "{# c #}", "{{ spyfn() }}", "{% for i in secret %}{{ i }}{% endfor %}",
+			"{% endraw %}{{ secret }}", "{% raw %}{{ secret }}{% endraw %}", "{% endverbatimx %}{{ secret }}", "{% end verbatim %}{{ secret }}", "{%endverbatim2%}{{ secret }}", "{% endapply %}{{ secret }}", "{% verbatim %}{{ secret }}"}) + genLit(rg, 8)
 		vb := "{% verbatim %}" + body + "{% endverbatim %}"
 		// wherever a verbatim block stands: top level, loop, block, macro body, included template
 		switch rg.Intn(6) {
